@@ -37,13 +37,32 @@ func main() {
 	maxSteps := flag.Int64("maxsteps", 2000000, "per-path SSA step budget")
 	jsonOut := flag.String("json", "", "write report JSON here")
 	verbose := flag.Bool("v", false, "print samples")
+	specID := flag.String("spec", "", "take package and overlay from checks.json entry")
+	tierF := flag.Int("tier", 0, "0 quick, 1 thorough")
 	flag.Parse()
 	t0 := time.Now()
-	w, err := interp.Load(".", nil, *pkg)
+	var overlay map[string][]byte
+	if *specID != "" {
+		sp := loadSpecs()[*specID]
+		if sp == nil {
+			fatal("no spec %s", *specID)
+		}
+		*pkg = sp.Pkg
+		overlay = map[string][]byte{}
+		for virt, real := range sp.Overlay {
+			data, err := os.ReadFile("/verif/engine/" + real)
+			if err != nil {
+				fatal("overlay: %v", err)
+			}
+			overlay["/repo/"+virt] = data
+		}
+	}
+	w, err := interp.Load(".", overlay, *pkg)
 	if err != nil {
 		fmt.Fprintln(os.Stderr, "load:", err)
 		os.Exit(2)
 	}
+	w.Tier = *tierF
 	fmt.Fprintf(os.Stderr, "loaded in %.1fs\n", time.Since(t0).Seconds())
 	names := w.HarnessFuncs("H_")
 	if *run != "" {
